@@ -278,6 +278,41 @@ func c01Check(cs c01Case) (ds []disc) {
 			fail("foreign-metadata", "%s returns X-Amz-Meta-Sibling, which was sent with a different key (%q)", method, sibling)
 		}
 	}
+	// --- the same bytes uploaded again with the same header names but other values: the
+	// acknowledged upload's metadata must be what reads return from then on
+	if (cs.Path == "put" || cs.Path == "put-md5" || cs.Path == "api") && len(cs.Meta) > 0 && len(ds) == 0 {
+		var hdr2 [][2]string
+		for _, kv := range cs.Meta {
+			v := kv[1] + "-v2"
+			if strings.EqualFold(kv[0], "Content-Type") {
+				v = "application/x-second-upload"
+			}
+			hdr2 = append(hdr2, [2]string{kv[0], v})
+		}
+		if cs.Path == "api" {
+			mm := map[string]string{}
+			for _, kv := range hdr2 {
+				mm[httpCanon(kv[0])] = kv[1]
+			}
+			if _, err := st.Backend.PutObject("bk0", key, mm, bytes.NewReader(body), int64(len(body))); err != nil {
+				fail("api-put", "second Backend.PutObject: %v", err)
+			}
+		} else if r := s3x.Do(st.Handler, &s3x.Req{Method: "PUT", Path: "/bk0/" + key, Header: hdr2, Body: body}); r.Status != 200 {
+			fail("put-refused", "second PUT of the same bytes answered %s", r)
+		}
+		for _, method := range []string{"GET", "HEAD"} {
+			r := s3x.Do(st.Handler, &s3x.Req{Method: method, Path: "/bk0/" + key})
+			for _, kv := range hdr2 {
+				if got := r.Header.Get(kv[0]); got != kv[1] {
+					fail("metadata-of-reupload-lost", "%s after re-uploading the same bytes with new metadata: %s = %q, the acknowledged upload sent %q", method, kv[0], got, kv[1])
+				}
+			}
+			if method == "GET" && (!bytes.Equal(r.Body, body) || r.Header.Get("ETag") != et) {
+				fail("body", "GET after the re-upload: %d bytes, ETag %s", len(r.Body), r.Header.Get("ETag"))
+			}
+		}
+		metaSent = hdr2
+	}
 	// --- listing entry
 	if xmlSafe(readKey) {
 		doc, r := listDoc(st, "bk0", "prefix", readKey)
